@@ -153,6 +153,9 @@ var reservedArgumentNames = map[string]string{
 	"fallthrough": "", "for": "", "func": "", "go": "", "goto": "", "if": "", "import": "", "interface": "",
 	"map": "", "package": "", "range": "", "return": "", "select": "", "struct": "", "switch": "", "type": "",
 	"var": "", "reflect": "", "tl": "", "c": "", "err": "", "resp": "", "ok": "", "responseData": "",
+	// predeclared identifiers which body of generated method refers to: argument with such name shadows them
+	"panic": "", "nil": "", "true": "", "false": "", "bool": "", "byte": "", "int32": "", "int64": "",
+	"float64": "", "string": "", "error": "",
 }
 
 func methodArgumentName(paramName string) string {
